@@ -144,7 +144,18 @@ struct Run<'a> {
 impl Run<'_> {
     fn group(&self, cfg: Cfg, cases: &[&'static Case], out: &mut Out) {
         let col = Arc::new(RecCollector::new(cfg));
-        let disp = Dispatch::new(Shared(col.clone()));
+        // the collector reaches Dispatch::new as itself, or behind tracing-core's `Box<dyn Collect>`
+        // / `Arc<C>` implementations (which must forward every method, `register_callsite` included)
+        let how = ((self.args.shard / NCFG + self.args.seed) % 3) as usize;
+        let disp = match how {
+            0 => Dispatch::new(Shared(col.clone())),
+            1 => {
+                let b: Box<dyn tracing_core::Collect + Send + Sync> = Box::new(Shared(col.clone()));
+                Dispatch::new(b)
+            }
+            _ => Dispatch::new(Arc::new(Shared(col.clone()))),
+        };
+        out.count(["groups_collector_as_itself", "groups_collector_behind_Box_dyn", "groups_collector_behind_Arc"][how], 1);
         tracing_core::dispatch::with_default(&disp, || {
             let p = tracing::span!(tracing::Level::ERROR, "c10_parent");
             col.take();
